@@ -488,7 +488,27 @@ def state_obj(I, sig, T, fresh=False, label="state"):
     L = sig.layout()
     cell = NpCell(T, (sig.N if isinstance(sig.N, int) else sig.N, L.W), fresh=fresh, label=label + ".tensor")
     stcls = I.repo.cls("nasim.envs.state.State")
-    return Obj(stcls, {"tensor": NpArr(cell), "host_num_map": sig.host_num_map()}, fresh=fresh, label=label)
+    # built by the REAL State.__init__ (fields a refactoring derives there exist as the code computes them; fields that
+    # another method writes are havoced and hidden); the plain two-field object only if the constructor is out of reach
+    arr, hnm = NpArr(cell), sig.host_num_map()
+    n_obl, n_w, n_d = len(I.ctx.obligations), len(I.ctx.writes), len(I.ctx.draws)
+    try:
+        from pyvc.values import EngineLimit
+        obj = Obj(stcls, {}, fresh=True, label=label)
+        I.call_function(I.find_member(stcls, "__init__")[1], [obj, arr, hnm], {})
+        obj.hidden = set()
+        for name in mutable_fields(stcls) - {"tensor", "host_num_map"}:
+            if name in obj.fields:
+                obj.fields[name] = havoc_like(I, obj.fields[name], f"State_{name}")
+                obj.hidden.add(name)
+    except EngineLimit:
+        obj = Obj(stcls, {"tensor": arr, "host_num_map": hnm}, fresh=True, label=label)
+        obj.model_object = True
+    del I.ctx.obligations[n_obl:]
+    del I.ctx.writes[n_w:]
+    del I.ctx.draws[n_d:]
+    obj.fresh = fresh
+    return obj
 
 
 def WF(sig, T):
@@ -597,6 +617,37 @@ class ActRec:
             f.update(service=mk(self.srv, "name"), os=mk(self.os, "name"), access=mk(self.access, "int"))
         if self.kind == "PrivilegeEscalation":
             f.update(process=mk(self.proc, "name"), os=mk(self.os, "name"), access=mk(self.access, "int"))
+        # preferred: the object the REAL constructor builds from these values (a field a refactoring derives in
+        # Action.__init__ then exists); accepted only if it stores the documented fields unchanged - otherwise the
+        # hand-built record stands (the constructors themselves are covered through load_action_list / get_action)
+        from pyvc.values import EngineLimit
+        from pyvc.interp import PyExc
+        if self.kind != "NoOp":
+            I.ctx.assume(z3.And(self.prob >= 0, self.prob <= 1))      # part of wfa(): keeps the constructor's assert fork-free
+        n_obl, n_w, n_d, n_pc = len(I.ctx.obligations), len(I.ctx.writes), len(I.ctx.draws), len(I.ctx.pc)
+        try:
+            obj = Obj(cls, {}, fresh=True, label="action")
+            kw = {k: v for k, v in f.items() if k != "name"}
+            if self.kind in ("Exploit", "PrivilegeEscalation"):
+                kw["name"] = "act"
+            if self.kind == "NoOp":
+                kw = {}
+            pend0 = len(I.ctx.pending)
+            I.call_function(I.find_member(cls, "__init__")[1], [obj], kw)
+            same = all(k in obj.fields and (obj.fields[k] is v or obj.fields[k] == v) for k, v in f.items()
+                       if not (self.kind == "NoOp" and k != "target")) and len(I.ctx.pending) == pend0 \
+                and len(I.ctx.pc) == n_pc
+            if same:
+                obj.fresh = False
+                del I.ctx.obligations[n_obl:]
+                del I.ctx.writes[n_w:]
+                del I.ctx.draws[n_d:]
+                return obj
+        except (EngineLimit, PyExc, Exception):     # noqa
+            pass
+        del I.ctx.obligations[n_obl:]
+        del I.ctx.writes[n_w:]
+        del I.ctx.draws[n_d:]
         return Obj(cls, f, fresh=False, label="action")
 
 
